@@ -3,7 +3,7 @@
    Same model and same proofs as C01 (Model/AtomicConc.v, Proofs/AtomicConcFacts.v); the sequential specification
    `spec_step` covers set / inc / dec / add / sub / get.  IntGauge: one store / fetch_add / fetch_sub / load on the
    two's complement pattern; Gauge: store, load, and the load / compare_exchange_weak loop with dec_by d = inc_by (-d). *)
-Require Import PV.Base.Prelude PV.Base.F64 PV.Model.Conc PV.Model.AtomicConc PV.Proofs.AtomicConcFacts PV.Spec.SpecC01 PV.Spec.SpecC11 PV.Proofs.AtomicSpecFacts PV.Proofs.AtomicSpecFull.
+Require Import PV.Base.Prelude PV.Base.F64 PV.Model.Conc PV.Model.AtomicConc PV.Proofs.AtomicConcFacts PV.Spec.SpecC01 PV.Spec.SpecC11 PV.Proofs.AtomicSpecFacts PV.Proofs.AtomicSpecFull PV.Proofs.AtomicSpecFloat.
 From Coq Require Import Permutation Floats Reals Lra.
 From Flocq Require Import Core BinarySingleNaN PrimFloat.
 Open Scope N_scope.
@@ -155,6 +155,14 @@ Proof. split; [vm_compute; reflexivity|]. apply c11_search_of_validated_int; [ex
 
 Example c11_igauge_trace_spec_by_theorem : dom11_int igauge_trace = true /\ spec_c11 false igauge_trace = true.
 Proof. split; [vm_compute; reflexivity|]. apply c11_spec_of_validated_int; [exact (proj1 c11_igauge_trace_valid)|vm_compute; reflexivity]. Qed.
+
+(* FULL float statement (Proofs/AtomicSpecFloat.v): on [dom11_float] (gauge calls, finite amounts whose decoded values fit one 53-bit
+   window, no overflow) a validated trace satisfies the WHOLE executable spec; no bound on the number of calls. *)
+Theorem c11_spec_of_validated_float es : trace_ok FloatOps es = true -> dom11_float es = true -> spec_c11 true es = true.
+Proof. exact (c11_spec_of_validated_float_full es). Qed.
+Example c11_gauge_trace_float_by_theorem : dom11_float gauge_trace = true /\ spec_c11 true gauge_trace = true.
+Proof. split; [vm_compute; reflexivity|]. apply c11_spec_of_validated_float; [exact (proj1 c11_gauge_trace_valid)|vm_compute; reflexivity]. Qed.
+Check c11_spec_of_validated_float : forall es, trace_ok FloatOps es = true -> dom11_float es = true -> spec_c11 true es = true.
 Check c11_spec_of_validated_int : forall es, trace_ok IntOps es = true -> dom11_int es = true -> spec_c11 false es = true.
 Check c11_search_of_validated_int : forall es, trace_ok IntOps es = true -> calls_in gauge_dom es = true -> spec_c11_core false es = true.
 Check c11_spec_of_validated_float_partial : forall es, trace_ok FloatOps es = true -> calls_in gauge_call es = true -> spec_c11_core true es = true.
@@ -195,3 +203,5 @@ Print Assumptions c11_gauge_trace_in_domain.
 Print Assumptions c11_igauge_trace_in_domain.
 Print Assumptions c11_spec_of_validated_int.
 Print Assumptions c11_igauge_trace_spec_by_theorem.
+Print Assumptions c11_spec_of_validated_float.
+Print Assumptions c11_gauge_trace_float_by_theorem.
